@@ -688,6 +688,10 @@ def total_edge_pixels_from(mask_2d: np.ndarray) -> int:
 
     edge_pixel_total = 0
 
+    padded = np.full((mask_2d.shape[0] + 2, mask_2d.shape[1] + 2), True)
+    padded[1:-1, 1:-1] = mask_2d
+    mask_2d = padded
+
     for y in range(1, mask_2d.shape[0] - 1):
         for x in range(1, mask_2d.shape[1] - 1):
             if not mask_2d[y, x]:
@@ -739,6 +743,10 @@ def edge_1d_indexes_from(mask_2d: np.ndarray) -> np.ndarray:
     edge_pixels = np.zeros(edge_pixel_total)
     edge_index = 0
     regular_index = 0
+
+    padded = np.full((mask_2d.shape[0] + 2, mask_2d.shape[1] + 2), True)
+    padded[1:-1, 1:-1] = mask_2d
+    mask_2d = padded
 
     for y in range(1, mask_2d.shape[0] - 1):
         for x in range(1, mask_2d.shape[1] - 1):
